@@ -6,12 +6,23 @@
 //! nested lists, one `(unicode λ)`), renders it into every macro variant and expands it with an
 //! independent expander into the expected step list. The OS stream (redundant releases dropped) is
 //! projected onto the macro's private key alphabet and matched against that list.
+//!
+//! Two further families live in c08_ext.rs: a key that carries a custom action of its own (unicode,
+//! mouse button, virtual-key action, cancelling macro key) pressed at every tick offset of a macro
+//! whose body contains custom items (unicode, mouse-button tap, virtual-key tap) - every custom
+//! item of the macro and of the typed key must come out exactly once; and a physical key with the
+//! same key code as a modifier the macro holds, pressed before / during the macro and released at
+//! every tick offset - judged on the OS key state: while the body holds the modifier for a step,
+//! the modifier is down in the OS model when that step's key is pressed.
 
 use crate::core::rng::Rng;
 use crate::core::sim::{code_name, osc, render_hist, Ev, OutKind, Sim};
 use crate::core::{CaseOut, Check, Ctx};
 use serde_json::{json, Value};
 use std::collections::BTreeSet;
+
+#[path = "c08_ext.rs"]
+mod ext;
 
 pub struct C08Check;
 pub static C08: C08Check = C08Check;
@@ -29,7 +40,16 @@ enum Item {
     Group(Vec<String>, Vec<Item>, bool),
     List(Vec<Item>),
     Uni(char),
+    /// a mouse button tapped by the macro (custom item): index into `BTNS`
+    Btn(usize),
+    /// `(on-press tap-vkey v)` (custom item): index into `VKS`
+    Vk(usize),
 }
+
+/// mouse buttons (configuration name, name in the OS stream)
+const BTNS: &[(&str, &str)] = &[("mlft", "Left"), ("mrgt", "Right"), ("mmid", "Mid"), ("mfwd", "Forward"), ("mbck", "Backward")];
+/// virtual keys (name, key it outputs); the output keys are outside every macro alphabet
+const VKS: &[(&str, &str)] = &[("vka", "f13"), ("vkb", "f14"), ("vkc", "f15"), ("vkt", "f16")];
 
 fn mod_prefix(m: &str, alt: bool) -> &'static str {
     match m {
@@ -65,6 +85,8 @@ fn render_items(items: &[Item]) -> String {
             ),
             Item::List(inner) => format!("({})", render_items(inner)),
             Item::Uni(c) => format!("(unicode {c})"),
+            Item::Btn(i) => BTNS[*i].0.to_string(),
+            Item::Vk(i) => format!("(on-press tap-vkey {})", VKS[*i].0),
         });
     }
     v.join(" ")
@@ -88,6 +110,9 @@ struct XStep {
     /// the guide does not say in which order a group's modifiers are released, so the releases of
     /// one block may come in any order (still one per millisecond)
     block: u32,
+    /// number of steps of the body that were left out of this list directly in front of this step
+    /// (custom items, keys judged separately); each of them still takes one tick of the macro
+    skipped: u32,
 }
 
 struct Expansion {
@@ -101,7 +126,7 @@ fn expand(items: &[Item]) -> Expansion {
     fn go(items: &[Item], out: &mut Vec<XStep>, pending: &mut u32, total: &mut u32, blocks: &mut u32) {
         let push = |out: &mut Vec<XStep>, pending: &mut u32, kind: SK, name: &str| {
             let name = if kind == SK::U { name.to_string() } else { code_name(osc(name)) };
-            out.push(XStep { kind, name, min_gap: *pending, block: 0 });
+            out.push(XStep { kind, name, min_gap: *pending, block: 0, skipped: 0 });
             *pending = 0;
         };
         for it in items {
@@ -142,6 +167,8 @@ fn expand(items: &[Item]) -> Expansion {
                 }
                 Item::List(inner) => go(inner, out, pending, total, blocks),
                 Item::Uni(c) => push(out, pending, SK::U, &c.to_string()),
+                Item::Btn(i) => push(out, pending, SK::U, &format!("btn:{}", BTNS[*i].1)),
+                Item::Vk(i) => push(out, pending, SK::U, &format!("vk:{}", code_name(osc(VKS[*i].1)))),
             }
         }
     }
@@ -162,6 +189,12 @@ struct BodyGen<'a> {
     uni_used: bool,
     budget: i32,
     delays: &'static [u32],
+    /// further custom items still to be placed (in this order); every one but the first placed is
+    /// preceded by a delay of 5
+    customs: Vec<Item>,
+    customs_placed: usize,
+    /// chance (percent) that the next item is one of `customs`
+    custom_pct: usize,
 }
 
 impl<'a> BodyGen<'a> {
@@ -179,6 +212,15 @@ impl<'a> BodyGen<'a> {
                 break;
             }
             let roll = self.rng.usize(100);
+            if !self.customs.is_empty() && self.rng.usize(100) < self.custom_pct {
+                if self.customs_placed > 0 {
+                    v.push(Item::Delay(5));
+                }
+                self.customs_placed += 1;
+                self.budget -= 1;
+                v.push(self.customs.remove(0));
+                continue;
+            }
             let item = if roll < 34 || depth >= 3 && roll < 55 {
                 self.budget -= 2;
                 if self.rng.chance(1, 10) && !self.mods.is_empty() {
@@ -292,6 +334,13 @@ enum Family {
     /// key tapped from outside, tap-hold / tap-dance timeout) or by a press, at some offset after a
     /// cancelling macro completed / was cut by release / was cut by a press, with typing meanwhile
     Delayed,
+    /// a key that carries a custom action of its own (unicode, mouse button, virtual-key action,
+    /// a cancelling macro key) is pressed at EVERY tick offset of a macro whose body contains
+    /// custom items (c08_ext.rs)
+    CustomMeanwhile,
+    /// a physical key with the same key code as a modifier the macro holds is pressed before /
+    /// during the macro and released at EVERY tick offset of the body (c08_ext.rs)
+    SharedKey,
 }
 
 #[derive(Clone, Copy, Debug, PartialEq, Eq)]
@@ -305,7 +354,18 @@ enum Trig {
 const TRIGS: [Trig; 5] = [Trig::OnRelease, Trig::FakeKeyTap, Trig::TapHoldTimeout, Trig::TapDanceTimeout, Trig::Press];
 const TRIG_T: u32 = 40;
 
-fn family_of(idx: u64) -> Family {
+/// number of cases of the six original families; the two families of c08_ext.rs follow
+fn base_cases(ctx: &Ctx) -> u64 {
+    ctx.tier.sel(10_000, 300_000)
+}
+fn ext_cases(ctx: &Ctx) -> u64 {
+    ctx.tier.sel(1_200, 24_000)
+}
+
+fn family_of(ctx: &Ctx, idx: u64) -> Family {
+    if idx >= base_cases(ctx) {
+        return if (idx - base_cases(ctx)) % 2 == 0 { Family::CustomMeanwhile } else { Family::SharedKey };
+    }
     if idx % 20 == 2 {
         return Family::Delayed;
     }
@@ -326,11 +386,17 @@ struct CaseCfg {
 }
 
 fn make_cfg(ctx: &Ctx, idx: u64) -> CaseCfg {
+    let family = family_of(ctx, idx);
+    match family {
+        Family::CustomMeanwhile => return ext::make_x(ctx, idx).cfg,
+        Family::SharedKey => return ext::make_s(ctx, idx).cfg,
+        _ => {}
+    }
     let mut rng = Rng::for_case(ctx.seed, "C08", "cfg", idx);
-    let family = family_of(idx);
     let n = match family {
         Family::Single | Family::Cancel | Family::Repeat => 1,
         Family::Delayed => 2,
+        Family::CustomMeanwhile | Family::SharedKey => unreachable!(),
         Family::Concurrent => 2 + rng.usize(3),
         Family::Overflow => 5 + rng.usize(4),
     };
@@ -366,6 +432,7 @@ fn make_cfg(ctx: &Ctx, idx: u64) -> CaseCfg {
                 }
             }
             Family::Overflow => VARIANTS[0],
+            Family::CustomMeanwhile | Family::SharedKey => unreachable!(),
             Family::Delayed => {
                 if i == 0 {
                     // the macro whose cancellation precedes: both-cancel variants twice as often
@@ -386,6 +453,7 @@ fn make_cfg(ctx: &Ctx, idx: u64) -> CaseCfg {
             Family::Concurrent => 6 + rng.usize(16) as i32,
             Family::Overflow => 10 + rng.usize(10) as i32,
             Family::Delayed => 4 + rng.usize(10) as i32,
+            Family::CustomMeanwhile | Family::SharedKey => unreachable!(),
         };
         let delays: &'static [u32] = match family {
             Family::Single => &[1, 1, 2, 3, 5, 10, 25, 60],
@@ -398,7 +466,7 @@ fn make_cfg(ctx: &Ctx, idx: u64) -> CaseCfg {
         let mut body;
         let mut tries = 0;
         loop {
-            let mut g = BodyGen { rng: &mut rng, letters: my_letters.clone(), mods: my_mods.clone(), held: vec![], uni, uni_used: false, budget, delays };
+            let mut g = BodyGen { rng: &mut rng, letters: my_letters.clone(), mods: my_mods.clone(), held: vec![], uni, uni_used: false, budget, delays, customs: vec![], customs_placed: 0, custom_pct: 0 };
             let n_items = 1 + g.rng.usize(7);
             body = g.items(0, n_items);
             let e = expand(&body);
@@ -660,13 +728,17 @@ fn strip_uni(e: &[XStep]) -> Vec<XStep> {
     // a removed custom step hands its delay to the next step
     let mut v: Vec<XStep> = vec![];
     let mut carry = 0;
+    let mut skipped = 0;
     for s in e {
         if s.kind == SK::U {
             carry += s.min_gap;
+            skipped += 1;
         } else {
             let mut s = s.clone();
             s.min_gap += carry;
+            s.skipped += skipped;
             carry = 0;
+            skipped = 0;
             v.push(s);
         }
     }
@@ -797,7 +869,8 @@ fn judge_macro(j: &mut Judge, d: &Drv, from: usize, start_tick: u64, m: &Macro, 
     }
     if let Some(rel) = ex.released_at {
         // a run may start only while the key is held
-        let lead = exp_steps.first().map(|e| e.min_gap as u64).unwrap_or(0);
+        // (steps in front of the first one that are left out of this projection still take one tick each)
+        let lead = exp_steps.first().map(|e| (e.min_gap + e.skipped) as u64).unwrap_or(0);
         for (i, s) in r.run_starts.iter().enumerate() {
             // a run is started `lead` ms (its leading delay) before its first step shows
             if i > 0 && *s > rel + SLACK + lead {
@@ -856,6 +929,8 @@ fn shape_tag(m: &Macro) -> String {
                     s.push(')');
                 }
                 Item::Uni(_) => s.push('u'),
+                Item::Btn(_) => s.push('b'),
+                Item::Vk(_) => s.push('v'),
             }
         }
     }
@@ -1393,7 +1468,7 @@ impl Check for C08Check {
         "C08"
     }
     fn n_cases(&self, ctx: &Ctx) -> u64 {
-        ctx.tier.sel(10_000, 300_000)
+        base_cases(ctx) + ext_cases(ctx)
     }
     fn describe(&self, ctx: &Ctx, idx: u64) -> Value {
         let c = make_cfg(ctx, idx);
@@ -1457,23 +1532,27 @@ impl Check for C08Check {
                     scenario_delayed(&mut out, &cfg, &mut rng);
                 }
             }
+            Family::CustomMeanwhile => ext::run_x(&mut out, ctx, idx, &mut rng),
+            Family::SharedKey => ext::run_s(&mut out, ctx, idx, &mut rng),
         }
-        if idx % 400 < 10 && idx / 400 < 2 {
+        if (idx % 400 < 10 && idx / 400 < 2) || (idx >= base_cases(ctx) && idx < base_cases(ctx) + 6) {
             let m = &cfg.macros[0];
             out.sample = Some(json!({"idx": idx, "family": format!("{:?}", cfg.family), "config": cfg.text, "expected_steps_of_first_macro": show_exp(&m.exp.steps)}));
         }
         out
     }
     fn rule(&self) -> String {
-        "case = one configuration with 1-8 macro keys whose bodies come from the harness's own macro grammar (keys, delays, modifier groups S-(…) incl. the 'S- (…)' spelling, output chords, nested lists to depth 3, at most one (unicode x) item; every macro has a private key alphabet, a key is never pressed while the same macro already holds it) rendered in one of the 8 macro variants. Families by case index: single (25%: 1-2 activations, held or tapped, with or without unrelated typing), cancel (30%: for EVERY step index i of the body a fresh run is cancelled after i steps - by releasing the key for release-cancel/repeat variants, by pressing another key for cancel-on-press variants), repeat (10%: held for a random time), concurrent (20%: 2-4 macros started 0-9 ms apart, plus one run where a release-cancel macro cancels all), overflow (10%: 5-8 macros started 0-3 ms apart), delayed (5%, taken from single: a plain macro is started by the release of an (on-release tap-vkey) key, by a virtual key tapped through the TCP path, by a tap-hold or tap-dance timeout, or by a press, at a random offset after a cancelling macro on another key completed / was cut by its release / was cut by another key's press, or without it; unrelated keys are typed from the plain macro's first step on; it must play its full expansion exactly once). The projection of the OS stream onto each macro's alphabet must read as: complete runs of the independently expanded body, optionally one partial run followed by the release of exactly the keys it still held (only where a cancellation was issued), with strictly increasing ticks, at least the written delays, nothing regular later than 3 ticks after a cancellation, no run of a repeating macro starting later than 3 ticks after the key's release, nothing of the alphabet down at the end, finished within 2x(steps+delays)+100 ticks. Non-trivial = a scenario whose macro produced output; distinct = (family, variant, body shape, hold/tap/typing or cancel index or concurrency and outcome).".into()
+        "case = one configuration with 1-8 macro keys whose bodies come from the harness's own macro grammar (keys, delays, modifier groups S-(…) incl. the 'S- (…)' spelling, output chords, nested lists to depth 3, at most one (unicode x) item; every macro has a private key alphabet, a key is never pressed while the same macro already holds it) rendered in one of the 8 macro variants. Families by case index among the first 10 000 (quick) / 300 000 (thorough) cases: single (25%: 1-2 activations, held or tapped, with or without unrelated typing), cancel (30%: for EVERY step index i of the body a fresh run is cancelled after i steps - by releasing the key for release-cancel/repeat variants, by pressing another key for cancel-on-press variants), repeat (10%: held for a random time), concurrent (20%: 2-4 macros started 0-9 ms apart, plus one run where a release-cancel macro cancels all), overflow (10%: 5-8 macros started 0-3 ms apart), delayed (5%, taken from single: a plain macro is started by the release of an (on-release tap-vkey) key, by a virtual key tapped through the TCP path, by a tap-hold or tap-dance timeout, or by a press, at a random offset after a cancelling macro on another key completed / was cut by its release / was cut by another key's press, or without it; unrelated keys are typed from the plain macro's first step on; it must play its full expansion exactly once). After these cases follow two families of their own (1 200 cases in quick, 24 000 in thorough, alternating): custom-meanwhile - one macro (macro / macro-release-cancel held through / macro-repeat held for 1-2.5 runs) whose body carries 1-3 custom items (unicode character, mouse-button tap, (on-press tap-vkey v); any two separated by a delay of 5) and a second key with a custom action of its own, systematically one of: (unicode ξ), a mouse button, (on-press tap-vkey w), (on-release tap-vkey w), a macro-release-cancel key, a macro-cancel-on-press key (the last two with a private alphabet, held to the end); for EVERY offset t = 0..duration+3 a fresh run presses the second key t ms after the macro key (released 1-9 ms later); the macro's keys must read as complete runs as below, the OS events of the macro's custom items must be exactly the body's custom items once per run in the order written, the second key's own effect must appear exactly once, nothing (keys, mouse buttons) may be down at the end. shared-key - one macro (macro, macro-release-cancel, macro-cancel-on-press, macro-release-cancel-and-cancel-on-press, macro-repeat) whose body contains a modifier group around at least two keys with a delay between them; 1-2 of the modifiers it uses also exist as physical keys (lsft next to S-(…)); for EVERY offset r = 0..duration+4 a fresh run presses the physical key 1-6 ms before the macro key and releases it r ms after it, plus (not for cancel-on-press variants) 6 runs with the physical key pressed and released at random offsets inside the macro; the projection onto the macro's other keys must read as complete runs; at every key press of the macro the OS key state is inspected: a shared modifier the body holds at that step must be down, one it does not hold must be up unless its physical key may be down (from its press to 3 ms after its release); nothing down at the end. The projection of the OS stream onto each macro's alphabet must read as: complete runs of the independently expanded body, optionally one partial run followed by the release of exactly the keys it still held (only where a cancellation was issued), with strictly increasing ticks, at least the written delays, nothing regular later than 3 ticks after a cancellation, no run of a repeating macro starting later than 3 ticks after the key's release, nothing of the alphabet down at the end, finished within 2x(steps+delays)+100 ticks. Non-trivial = a scenario whose macro produced output; distinct = (family, variant, body shape, hold/tap/typing or cancel index or concurrency and outcome).".into()
     }
     fn assumptions(&self) -> Vec<String> {
         vec![
             "a macro never presses a key it already holds (nested identical modifiers are not generated: the OS stream cannot show the inner press)".into(),
             "output chords (C-S-a) must release their modifiers in reverse order; for modifier groups C-S-(…) the guide does not say in which order the group's modifiers are released at the end (the tree releases them in press order), so any order is accepted there, one release per millisecond, after the group's content".into(),
             "only one macro per configuration carries a custom item and repeating bodies with one end in a delay of 5, because the guide documents that neighbouring custom items need delays; in cancelled runs the custom item is not judged".into(),
-            "keys typed meanwhile and the cancelling key are outside every macro alphabet; the same macro is not re-activated while it is still running".into(),
+            "keys typed meanwhile and the cancelling key are outside every macro alphabet (except the physical twins of the shared-key family); the same macro is not re-activated while it is still running".into(),
             "cancel-on-press is exercised while the first run is in progress (the guide: 'the trigger is enabled while the macro is in progress'); the cancelling press is sent at least 1 ms after the macro key".into(),
+            "custom-meanwhile family: kanata reports one custom event per tick, so a custom item of the macro can come out one tick late when another key's custom action takes the slot (the guide: such items 'may need short delays'); the exact tick of a custom item relative to the neighbouring key steps is therefore not judged there, only that every custom item appears, once per run, in the order written, and that the keys follow all rules. Macro variants that a press cancels are not used as the running macro in that family (the second key's press would cancel them), and cut runs of macros with mouse-button / virtual-key items are not generated".into(),
+            "shared-key family: the macro's own presses and releases of a modifier whose physical twin is down cannot show in the OS stream (the key is already down), so they are not matched as events; what is required is the OS key state at the macro's key presses. Only modifiers are shared (a letter the macro merely taps has no hold to judge). The physical key is taken as possibly down from the tick of its press to 3 ticks after its release".into(),
             "more than 4 concurrent macros: the documented limit evicts the oldest running macro; that is reported under its own known-finding signature, any other deviation in those scenarios stays live".into(),
         ]
     }
@@ -1502,6 +1581,23 @@ impl Check for C08Check {
             ("delayed_after_cut-by-release", 300 * s),
             ("delayed_after_cut-by-press", 150 * s),
             ("delayed_after_completed", 150 * s),
+            // custom-meanwhile family
+            ("xcustom_scenarios", 8_000 * s),
+            ("xcustom_items_seen_once", 20_000 * s),
+            ("xcustom_typed_seen_once", 8_000 * s),
+            ("xcustom_typed_within_1ms_of_macro_item", 2_500 * s),
+            ("xcustom_typed_Unicode", 1_000 * s),
+            ("xcustom_typed_Mouse", 1_000 * s),
+            ("xcustom_typed_VkOnPress", 1_000 * s),
+            ("xcustom_typed_VkOnRelease", 1_000 * s),
+            ("xcustom_typed_RcMacro", 1_000 * s),
+            ("xcustom_typed_CpMacro", 1_000 * s),
+            // shared-key family
+            ("shared_scenarios", 15_000 * s),
+            ("shared_pressed_during_macro", 1_000 * s),
+            ("shared_held_presses_judged", 120_000 * s),
+            ("shared_unheld_presses_judged", 30_000 * s),
+            ("shared_held_presses_after_physical_release", 50_000 * s),
         ]
     }
 }
